@@ -62,6 +62,7 @@ static void* h_malloc(size_t size) {
   if (!h) die("libc malloc failed", 0);
   h->magic = MAGIC_LIVE; h->size = size;
   n_live++; n_live_bytes += (long)size;
+  memset(h + 1, 0xA5, size);     /* fresh memory is not zero: a field the library forgets to initialise reads as garbage, deterministically */
   return h + 1;
 }
 static void h_free(void* p) {
@@ -84,6 +85,7 @@ static void* h_realloc(void* p, size_t size) {
     struct hdr* h = raw_alloc(sizeof(struct hdr) + size);
     if (!h) die("libc malloc failed", 0);
     h->magic = MAGIC_LIVE; h->size = size; n_live++; n_live_bytes += (long)size;
+    memset(h + 1, 0xA5, size);
     return h + 1;
   }
   struct hdr* h = (struct hdr*)p - 1;
@@ -91,6 +93,7 @@ static void* h_realloc(void* p, size_t size) {
   struct hdr* nh = raw_alloc(sizeof(struct hdr) + size);
   if (!nh) die("libc malloc failed", 0);
   nh->magic = MAGIC_LIVE; nh->size = size;
+  memset(nh + 1, 0xA5, size);
   memcpy(nh + 1, h + 1, h->size < size ? h->size : size);
   n_live_bytes += (long)size - (long)h->size;
   h->magic = MAGIC_DEAD; raw_free(h);
